@@ -26,7 +26,9 @@ func c02(c *eng.Ctx, r *eng.Report) {
 		"R2.6 only the 16 child slots of a branch are hashed, the value slot (index 16) is carried over verbatim; " +
 		"R2.7 a cached hash is attached only to the node it belongs to — node constructors that take a hash (decodeNode, decodeShort, decodeFull, expandNode) are given nil whenever the node goes into a child slot of another node. " +
 		"R2.8 the six functions of the hex-prefix (compact) key encoding keep the arithmetic constants that make them inverse to each other and equal to the specification (flag = 2·terminator+odd in the high nibble, high nibble first, terminator nibble 16). " +
-		"Not decided: equality of the root with the Yellow-Paper value for a given content, iterator order, resolution after cache eviction."
+		"R2.9 the node iterator's look-ahead leaves the cursor one before the child it offers and only push() advances it, by one (what seek-to-a-start-key relies on). " +
+		"R2.10 every dispatch on the kind of a split RLP item in the trie decoder handles Byte, String and List or ends in an error. " +
+		"Not decided: equality of the root with the Yellow-Paper value for a given content, iterator order as such, resolution after cache eviction."
 	r.Assume = []string{"nodes are only reachable through the trie package (unexported types)"}
 	c02CopyOnWrite(c, r)
 	c02Dirty(c, r)
@@ -36,6 +38,8 @@ func c02(c *eng.Ctx, r *eng.Report) {
 	c02ValueSlot(c, r)
 	c02HashOwner(c, r)
 	c02HexPrefix(c, r)
+	c02IterCursor(c, r)
+	c02KindDispatch(c, r)
 }
 
 func isNodePtr(t types.Type) (string, bool) {
@@ -640,5 +644,144 @@ func c02HexPrefix(c *eng.Ctx, r *eng.Report) {
 		}
 		sort.Strings(got)
 		r.Check(len(missing) == 0, rule, "hex-prefix:"+n, c.Pos(fn.Pos()), "constants of the compact encoding present: "+strings.Join(hexPrefixRef[n], ", "), n+" lost constant operation(s) "+strings.Join(missing, ", ")+" of the hex-prefix encoding (found: "+strings.Join(got, ", ")+"): encoder and decoder stop being inverse, or the stored keys stop being the specification's, and with them every root")
+	}
+}
+
+// c02IterCursor: the node iterator's look-ahead (peek → nextChild) does not
+// move the cursor past the child it offers — only push() does, by one. seek()
+// relies on this: the entry it stops in front of must still be returned by the
+// next Next(). (Iteration order as such is not decided.)
+func c02IterCursor(c *eng.Ctx, r *eng.Report) {
+	const rule = "R2.9"
+	r.Min(rule, 2)
+	nc := c.Func("storage/trie", "(*nodeIterator).nextChild")
+	push := c.Func("storage/trie", "(*nodeIterator).push")
+	peek := c.Func("storage/trie", "(*nodeIterator).peek")
+	if !r.Anchor(nc != nil && push != nil && peek != nil, rule, "nodeIterator.nextChild/push/peek") {
+		return
+	}
+	// (a) in the look-ahead, the cursor of an existing state is only ever set to (offered child − 1)
+	why := ""
+	n := 0
+	for _, fn := range []*ssa.Function{nc, peek} {
+		for _, st := range eng.FieldStores(fn, "storage/trie.nodeIteratorState", "index") {
+			s := st.(*ssa.Store)
+			// stores that initialise a freshly built state (index: -1 / 0 in a composite literal) are not cursor moves
+			if fa, ok := s.Addr.(*ssa.FieldAddr); ok {
+				if _, fresh := fa.X.(*ssa.Alloc); fresh {
+					continue
+				}
+			}
+			n++
+			bo, ok := s.Val.(*ssa.BinOp)
+			k, isK := int64(0), false
+			if ok {
+				k, isK = eng.ConstInt(bo.Y)
+			}
+			if !ok || bo.Op != token.SUB || !isK || k != 1 {
+				why = "the look-ahead (" + fn.Name() + ") sets a state's cursor to " + eng.Desc(s.Val) + " (" + c.Pos(s.Pos()) + ") instead of (offered child − 1)"
+				continue
+			}
+			if _, isPhi := bo.X.(*ssa.Phi); !isPhi {
+				why = "the cursor is not derived from the child-scan variable"
+			}
+		}
+	}
+	r.Check(why == "" && n >= 1, rule, "nodeIterator.peek:look-ahead-only", c.Pos(nc.Pos()), "nextChild leaves the cursor one before the child it offers", "trie node iterator: "+why+fmt.Sprintf(" (%d cursor stores seen)", n)+": peeking already consumes the child, so the entry seek() stops in front of (iteration from a start key) is skipped")
+	// (b) push advances the parent's cursor by exactly one through the pointer peek handed out
+	inc := false
+	for _, b := range push.Blocks {
+		for _, in := range b.Instrs {
+			s, ok := in.(*ssa.Store)
+			if !ok || !isParamNamed(s.Addr, "parentIndex") {
+				continue
+			}
+			if bo, isB := s.Val.(*ssa.BinOp); isB && bo.Op == token.ADD {
+				if k, isK := eng.ConstInt(bo.Y); isK && k == 1 {
+					if u, isU := bo.X.(*ssa.UnOp); isU && isParamNamed(u.X, "parentIndex") {
+						inc = true
+					}
+				}
+			}
+		}
+	}
+	handsOut := false
+	for _, re := range eng.Returns(peek) {
+		if len(re.Ret.Results) >= 2 {
+			if _, f := eng.FieldOf(eng.RetValue(re.Ret, 1)); f == "index" {
+				handsOut = true
+			}
+		}
+	}
+	r.Check(inc && handsOut, rule, "nodeIterator.push:advance-by-one", c.Pos(push.Pos()), "push increments the parent's cursor (handed out by peek as &parent.index) by one", fmt.Sprintf("trie node iterator: the cursor is no longer advanced in push by one through the pointer peek returns (push increments=%v, peek returns &parent.index=%v)", inc, handsOut))
+}
+
+// c02KindDispatch: whoever splits an RLP item and branches on its kind either
+// handles all three kinds (Byte, String, List) or ends the dispatch in an
+// error: a kind that falls through silently is content that is read as absent
+// after a reload (a one-byte value below 0x80 has kind Byte, not String).
+func c02KindDispatch(c *eng.Ctx, r *eng.Report) {
+	const rule = "R2.10"
+	r.Min(rule, 1)
+	n := 0
+	for _, fn := range c.PkgFuncs("storage/trie") {
+		if c.IsTestFunc(fn) {
+			continue
+		}
+		for i, call := range callsNamed(fn, "storage/rlp.Split") {
+			var kind ssa.Value
+			for _, ref := range *call.Referrers() {
+				if ex, ok := ref.(*ssa.Extract); ok && ex.Index == 0 {
+					kind = ex
+				}
+			}
+			if kind == nil || kind.Referrers() == nil {
+				continue
+			}
+			consts := map[int64]bool{}
+			var cmps []ssa.Value
+			for _, ref := range *kind.Referrers() {
+				if bo, ok := ref.(*ssa.BinOp); ok && (bo.Op == token.EQL || bo.Op == token.NEQ) {
+					if k, isK := eng.ConstInt(bo.Y); isK {
+						consts[k] = true
+						cmps = append(cmps, bo)
+					}
+				}
+			}
+			if len(cmps) == 0 {
+				continue // kind not used for dispatch
+			}
+			n++
+			exhaustive := consts[0] && consts[1] && consts[2]
+			// a default that fails: a non-nil error return on which no kind comparison is known to have succeeded
+			defaultErr := false
+			for _, re := range eng.Returns(fn) {
+				idx := len(re.Ret.Results) - 1
+				if cls := eng.RetClass(re.Ret, idx, re.Pred); cls == "nil" {
+					continue
+				}
+				pos, neg := 0, 0
+				for _, cd := range eng.EdgeConds(re.Ret.Block()) {
+					for _, cm := range cmps {
+						if cd.V == cm {
+							bo := cm.(*ssa.BinOp)
+							if (bo.Op == token.EQL) == cd.True {
+								pos++
+							} else {
+								neg++
+							}
+						}
+					}
+				}
+				if pos == 0 && neg > 0 {
+					defaultErr = true
+				}
+			}
+			key := fmt.Sprintf("kind-dispatch:%s#%d", eng.FuncName(fn), i)
+			r.Check(exhaustive || defaultErr, rule, key, c.Pos(call.Pos()), "all three kinds handled, or the dispatch ends in an error", eng.FuncName(fn)+" branches on the kind of a split RLP item without handling every kind (Byte handled="+fmt.Sprint(consts[0])+", String="+fmt.Sprint(consts[1])+", List="+fmt.Sprint(consts[2])+") and without a failing default: an item of the unhandled kind is silently dropped — e.g. a one-byte value below 0x80 stored in a branch node reads as absent after the node is reloaded, and the next update gives a non-canonical root")
+		}
+	}
+	if n == 0 {
+		r.Fail(rule, "kind-dispatch:none", "", "no kind dispatch over rlp.Split found in storage/trie (decodeRef expected)")
 	}
 }
